@@ -10,6 +10,7 @@ import CobaldVerif.Drive.C16
 import CobaldVerif.Drive.C17
 import CobaldVerif.Drive.C18
 import CobaldVerif.Drive.C19
+import CobaldVerif.Drive.RT
 
 namespace Cobald.Drive
 open Lean
@@ -28,6 +29,7 @@ def dispatch (prop : String) (j : Json) : Except String Json :=
   | "C17" => C17.handle j
   | "C18" => C18.handle j
   | "C19" => C19.handle j
+  | "RT" => RT.handle j
   | p => throw s!"unknown property {p}"
 
 /-- one request line `<prop> <json>` → one canonical JSON line -/
